@@ -8,6 +8,7 @@ canonical order "the child that just ran first, then ascending index" -- so a no
 pre-emption (or a non-canonical pick after an exit) and E1's deviation bound is a pre-emption bound.
 
 Scheduling points
+  start of the job (so every start offset relative to the other processes is explored)
   file system (paths inside the shared temp dir): os.open, builtins.open, os.unlink/remove/rename,
       os.stat/lstat
   sqlite (readers): sqlite3.connect, Cursor.execute/executescript, Connection.commit, every row fetch
@@ -210,6 +211,7 @@ def spawn(idx, fn, shared, sqlite_points=False):
             if sqlite_points:
                 _install_sqlite_hooks(point)
             try:
+                point("start", "")           # start offsets: the controller decides when this job begins
                 res = fn()
                 msg = dict(t="exit", ok=True, res=res)
             except BaseException as e:
